@@ -131,11 +131,25 @@ class BaseSQLURLTable(BaseURLTable):
 
                 added_urls = get_inserted_urls()
 
-            hostnames = (URLInfo.parse(url).hostname for url in added_urls)
-            session.execute(
-                insert(Hostname).prefix_with('OR IGNORE'),
-                [{'hostname': hostname} for hostname in hostnames]
+            # The hostnames table feeds the span-hosts filter when the
+            # program starts: it holds the hosts of the URLs given by the
+            # user (level 0) only. Hosts of discovered links must not be
+            # recorded, or a restarted crawl would treat every host it has
+            # ever seen a link to as a starting host.
+            top_urls = set(
+                url for url, url_properties, url_data in new_urls
+                if not url_properties or not url_properties.level
             )
+            hostnames = [
+                URLInfo.parse(url).hostname for url in added_urls
+                if url in top_urls
+            ]
+
+            if hostnames:
+                session.execute(
+                    insert(Hostname).prefix_with('OR IGNORE'),
+                    [{'hostname': hostname} for hostname in hostnames]
+                )
 
         return added_urls
 
